@@ -353,6 +353,10 @@ class ExprMixin:
                 return PyDict({**a.items, **b.items})
         if isinstance(node.op, ast.Sub) and isinstance(a, KSetV):
             return self.kset_minus(a, b)
+        if isinstance(node.op, (ast.Add, ast.Sub)) and (isinstance(a, Sym) and a.kind == "int" or isinstance(b, Sym) and b.kind == "int") \
+                and not isinstance(a, KSetV):
+            x, y = self.as_int(a), self.as_int(b)
+            return Sym("int", x + y if isinstance(node.op, ast.Add) else x - y)
         if isinstance(node.op, ast.Add):
             if isinstance(a, int) and isinstance(b, int):
                 return a + b
@@ -390,6 +394,13 @@ class ExprMixin:
                 lo = self.eval(idx.lower, env) if idx.lower else None
                 hi = self.eval(idx.upper, env) if idx.upper else None
                 return type(v)(v.items[lo:hi])
+            if isinstance(v, SeqV) and idx.lower is None and idx.upper is not None and idx.step is None:
+                hi = self.as_int(self.eval(idx.upper, env))
+                # v[:hi] for 0 <= hi  (python clamps at len)
+                n2 = z3.If(hi < 0, z3.IntVal(0), z3.If(hi > v.n, v.n, hi))
+                if self.fork(hi < 0):
+                    raise Unsupported("negative slice bound on symbolic sequence")
+                return SeqV(n2, v.elem, v.kind)
             if isinstance(v, Sym) and v.kind in ("key", "val") and idx.lower is not None and idx.upper is not None \
                     and ast.unparse(idx.lower) == "1" and ast.unparse(idx.upper) == "-1":
                 return Sym("key", T.pname(self.as_key(v)))
